@@ -418,7 +418,7 @@ MUTANTS += [
 
 MUTANTS += [
     # ---- C18
-    dict(id="c18-tag-without-checker-hash", property="C18", edits=[(I, 'optimization=f"jaxtyping9{typechecker_hash}"', 'optimization="jaxtyping9"')]),
+    dict(id="c18-tag-without-checker-hash", property="C18", edits=[(I, 'optimization=f"{level}jaxtyping9{typechecker_hash}"', 'optimization=f"{level}jaxtyping9"')]),
     dict(id="c18-no-tag-at-all", property="C18", edits=[(I, "        _cache_marker.typechecker_hash = self._typechecker.get_hash()\n", "        pass\n")]),
     dict(id="c18-patch-whole-exec", property="C18", edits=[(I, "    def get_code(self, fullname):", "    def exec_module(self, module):\n        _install_cache_from_source()\n        previous = getattr(_cache_marker, \"typechecker_hash\", None)\n        _cache_marker.typechecker_hash = self._typechecker.get_hash()\n        try:\n            return super().exec_module(module)\n        finally:\n            _cache_marker.typechecker_hash = previous\n\n    def get_code(self, fullname):")]),
     dict(id="c18-hash-of-first-char", property="C18", edits=[(I, 'self.hash = hashlib.md5(typechecker.encode("utf-8")).hexdigest()', 'self.hash = hashlib.md5(typechecker[:7].encode("utf-8")).hexdigest()')]),
